@@ -193,10 +193,10 @@ PROPS.update({
             "non-termination would show as the check's wall-clock timeout (reported as a broken obligation), stack exhaustion / allocation failure are not exhibited",
             "the harness is compiled once, in release mode with debug-assertions and overflow-checks on"],
         "timeout": 3000,
-        "explanation": "Strings, matching: Theorem c08_string_run_total - on every automaton passing wf_check and arity_ok (both evaluated on every dump) "
+        "explanation": "Strings and matrices, matching: Theorems c08_string_run_total / c08_matrix_run_total - on every automaton passing wf_check and arity_ok (matrices: and keys_nn; all evaluated on every dump) "
                        "the modelled traversal never reaches a panic site and terminates (explicit fuel bound from a weight that decreases along the "
                        "acyclic automaton), for every host. Component totality theorems (c08_*_partial) for the toposort and retain_keys. Construction, and "
-                       "matching on matrices / port graphs: panic/timeout exploration of every generated and degenerate case; Ok/Panic status of the "
+                       "matching on port graphs: panic/timeout exploration of every generated and degenerate case; Ok/Panic status of the "
                        "modelled traversal compared with the implementation on every dumped automaton.",
         "technique": "catch_unwind + watchdog exploration over generated and degenerate inputs; Coq totality lemmas for components"},
     "C10": {"subs": ["c10"], "level": "proof",
